@@ -279,6 +279,96 @@ def run(ctx: Ctx) -> None:
                     + ("a specifier that is not allowed here is silently accepted" if w and not w[3] else "a well-formed declaration is rejected")) if w else "",
                node=vfn, mod=ps_mod, detail={"combinations": 32, "wrong": len(wrong)})
 
+    # ---------------------------------------------------------------- R6.9
+    # The catch-all is in parse(); what runs when the parser is *constructed* (CxxParser.__init__, the token stream's and
+    # the lexer's constructors, Lexer.input) runs outside it, so for "every input" nothing there may fail on some text.
+    # A text is never indexed there (`content[0]` raises IndexError for the empty input; slices and the
+    # prefix/suffix/replace methods cannot fail) unless a test of the same text dominates the access.
+    ctx.rule("R6.9", "code that runs at construction, outside the catch-all, does not index the input text (empty input raises IndexError there)", minimum=3)
+    lexmod_ = ctx.repo.mod("lexer")
+    plymod_ = ctx.repo.mod("_ply.lex")
+    ctor_fns = [(mod, "parser", pm.fn("__init__"), "CxxParser.__init__")]
+    for q_ in ("LexerTokenStream.__init__", "PlyLexer.__init__", "PlyLexer.__new__"):
+        try:
+            ctor_fns.append((lexmod_, "lexer", lexmod_.func(q_), q_))
+        except AnalysisError:
+            pass
+    try:
+        ctor_fns.append((plymod_, "_ply.lex", plymod_.func("Lexer.input"), "Lexer.input"))
+    except AnalysisError:
+        pass
+    for m_, mn_, f_, q_ in ctor_fns:
+        strs_ = {a.arg for a in f_.args.args + f_.args.kwonlyargs if a.annotation is not None and norm(a.annotation) in ("str", "typing.Optional[str]", "Optional[str]")}
+        if q_ == "Lexer.input":
+            strs_ |= {a.arg for a in f_.args.args[1:]}
+        # locals defined from a text stay texts (x = content.replace(...), x = content[1:], x = fp.read())
+        grew = True
+        while grew:
+            grew = False
+            for st in walk_local(f_):
+                if isinstance(st, ast.Assign) and len(st.targets) == 1 and isinstance(st.targets[0], ast.Name) and st.targets[0].id not in strs_:
+                    v = st.value
+                    base = v.func.value if isinstance(v, ast.Call) and isinstance(v.func, ast.Attribute) else (v.value if isinstance(v, ast.Subscript) else v)
+                    if isinstance(base, ast.Name) and base.id in strs_:
+                        strs_.add(st.targets[0].id)
+                        grew = True
+        bad = None
+        for x in walk_local(f_):
+            if isinstance(x, ast.Subscript) and isinstance(x.ctx, ast.Load) and not isinstance(x.slice, ast.Slice) and isinstance(x.value, ast.Name) and x.value.id in strs_:
+                # guarded by a test of the same text (truth value, length, prefix) in an enclosing `if`/`and`
+                guarded = False
+                cur = x
+                while cur is not None and cur is not f_:
+                    par = m_.parent.get(cur)
+                    if isinstance(par, ast.BoolOp) and isinstance(par.op, ast.And):
+                        i_ = next((k for k, v_ in enumerate(par.values) if v_ is cur), 0)
+                        if any(isinstance(n_, ast.Name) and n_.id == x.value.id for v_ in par.values[:i_] for n_ in ast.walk(v_)):
+                            guarded = True
+                    if isinstance(par, (ast.If, ast.While)) and cur is not par.test and cur in par.body and any(isinstance(n_, ast.Name) and n_.id == x.value.id for n_ in ast.walk(par.test)):
+                        guarded = True
+                    if isinstance(par, ast.IfExp) and cur is par.body and any(isinstance(n_, ast.Name) and n_.id == x.value.id for n_ in ast.walk(par.test)):
+                        guarded = True
+                    cur = par
+                if not guarded:
+                    bad = x
+                    break
+        ctx.ob("R6.9", f"{mn_}:{q_}|no unguarded index into the input text", bad is None,
+               msg=f"`{short(bad, 40) if bad is not None else ''}` runs when the parser is constructed, outside parse()'s catch-all: for the empty input it raises IndexError instead of the parse ending in a result or a CxxParseError", node=bad or f_, mod=m_, nontrivial=False)
+
+    # ---------------------------------------------------------------- R6.10
+    # "bracket mismatch": a closer that does not match the innermost open bracket is rejected by the balanced consumer,
+    # which compares every closer with its expectation (decided above by interpretation).  Matching by *counting* one
+    # kind of bracket accepts `{ f(1 ], 2 }`; the only place that may count is the body skipper, whose regions contribute
+    # nothing.  Anywhere else in parser.py a +-1 counter driven by a test on a bracket token is a finding.
+    ctx.rule("R6.10", "brackets are matched by counting only in the body skipper; every other group goes through the checking consumer", minimum=0)
+    _BR = {"{", "}", "(", ")", "[", "]", "<", ">", "DBL_LBRACKET", "DBL_RBRACKET"}
+    seen_counter = 0
+    for fname in sorted(pm.methods):
+        cfg_ = pm.cfg(fname)
+        for n in cfg_.nodes:
+            st = n.stmt
+            if n.kind != "stmt":
+                continue
+            step = None
+            if isinstance(st, ast.AugAssign) and isinstance(st.op, (ast.Add, ast.Sub)) and isinstance(st.target, ast.Name) and isinstance(st.value, ast.Constant) and st.value.value == 1:
+                step = st.target.id
+            elif isinstance(st, ast.Assign) and len(st.targets) == 1 and isinstance(st.targets[0], ast.Name) and isinstance(st.value, ast.BinOp) and isinstance(st.value.op, (ast.Add, ast.Sub)) \
+                    and isinstance(st.value.left, ast.Name) and st.value.left.id == st.targets[0].id and isinstance(st.value.right, ast.Constant) and st.value.right.value == 1:
+                step = st.targets[0].id
+            if step is None:
+                continue
+            deps = cfg_.control_deps(n)
+            on_bracket = [d for d, lab in deps if d.cond is not None and any(isinstance(x, ast.Constant) and x.value in _BR for x in ast.walk(d.cond))
+                          or (d.cond is not None and any(isinstance(x, ast.Name) and x.id in ("start_type", "end_type") for x in ast.walk(d.cond)))]
+            if not on_bracket:
+                continue
+            seen_counter += 1
+            ok = fname == "_discard_contents"
+            ctx.ob("R6.10", f"parser:CxxParser.{fname}|`{short(st, 30)}` under `{short(on_bracket[0].cond, 40)}`", ok,
+                   msg=f"{fname} matches brackets by counting (`{short(st, 30)}`): a closer of another kind inside the group is not compared with anything, so a bracket mismatch in this position is accepted silently instead of ending in a CxxParseError", node=st, mod=mod)
+    # (no counter at all -- the skipper written with a step table, say -- leaves nothing to report here; the skipper
+    # itself is decided by interpretation under C13)
+
     # ---------------------------------------------------------------- R6.7
     # "unprocessed preprocessor conditionals or defines ... are rejected": a directive can only be rejected if the lexer
     # rule that matches it does not silently drop it; which rule functions may finish without a token is C08's R8.1,
